@@ -66,7 +66,8 @@ def c01(tier):
              + mk("bus", 50 if q else 3000, s + 5, "wide", n_ops=70, opts=dict(weights=w))
              + mk("bus", 50 if q else 2000, s + 6, "default", n_ops=70, opts=dict(weights=w), local_only=True)
              # subscribers that read slowly (within the write buffer) and catch up: nothing may be lost on the way
-             + mk("slowsub", 120 if q else 4000, s + 7, "default") + mk("slowsub", 60 if q else 2000, s + 8, "smallbuf"))
+             + mk("slowsub", 120 if q else 4000, s + 7, "default") + mk("slowsub", 60 if q else 2000, s + 8, "smallbuf")
+             + mk("bus", 80 if q else 3000, s + 9, "odd", n_ops=90, opts=dict(weights=w, n_peers=(3, 6))))
     # "nothing is delivered for a fetch that was refused / unfetched" also when the refusal is a failed allocation
     fres, fcases = fetch_allocfail_cases(tier, s)
     res = fres + run_cases(cases + fcases)
@@ -105,7 +106,8 @@ def c03(tier):
              + mk("bus", 400 if q else 12000, s + 1, "tiny", n_ops=80, opts=dict(weights=w, hostile_owner=0.15))
              + mk("bus", 100 if q else 4000, s + 2, "default", n_ops=300, opts=dict(weights=dict(w, reply=6, advance=1), n_peers=(3, 5), p_settle=0.3))
              # owners / bystanders that stop reading or fail while requests are routed
-             + mk("faulty", 250 if q else 8000, s + 3, "smallbuf", n_ops=70, weights=dict(route=34, reply=16, change=20, advance=6, fault=5)))
+             + mk("faulty", 250 if q else 8000, s + 3, "smallbuf", n_ops=70, weights=dict(route=34, reply=16, change=20, advance=6, fault=5))
+             + mk("bus", 80 if q else 3000, s + 4, "odd", n_ops=120, opts=dict(weights=w, hostile_owner=0.15)))
     res = run_cases(cases)
     return report("C03", "exploration", res,
                   "random histories of set/call from several callers to several owners with owner replies (result, error, forged id, duplicated), clock advances up "
@@ -193,6 +195,7 @@ def c16(tier):
     cases += mk("rules", 300 if q else 6000, s + 1, "default", mode="pairs", nrules=120)
     cases += mk("rules", 24 if q else 400, s + 2, "default", mode="bad")
     cases += mk("rules", 4 if q else 40, s + 3, "tiny", mode="bad")
+    cases += mk("rules", 20 if q else 400, s + 4, "odd", mode="pairs", nrules=60) + mk("rules", 4 if q else 40, s + 5, "odd", mode="bad")
     res = run_cases(cases)
     return report("C16", "exploration", res,
                   "every single matcher x operand (53 adversarial strings: empty, prefixes/suffixes of each other, case variants, non-ASCII, the bytes next to the ASCII letter blocks, longer than any path) x "
@@ -211,7 +214,8 @@ def c14(tier):
              + mk("deadline-race", 300 if q else 10000, s + 1, "default", rounds=6)
              + mk("deadline-race", 150 if q else 5000, s + 2, "wide", rounds=6)
              + mk("deadline-race", 100 if q else 5000, s + 3, "tiny", rounds=6)
-             + mk("deadline-race", 100 if q else 5000, s + 4, "one", rounds=6))
+             + mk("deadline-race", 100 if q else 5000, s + 4, "one", rounds=6)
+             + mk("deadline-grid", 40 if q else 1500, s + 5, "odd", n=40) + mk("deadline-race", 60 if q else 2500, s + 6, "odd", rounds=6))
     res = run_cases(cases)
     return report("C14", "exploration", res,
                   "timeout grid (absent, 0, 1e-4, 0.000999, 0.001, 0.0015, ..., 1e30, string, bool, null, negative, object) x {request, element, both, neither}: the "
